@@ -253,7 +253,21 @@ func isolated(cases []string) {
 		}
 	}
 	if w != nil {
-		w.stop()
+		w.finish()
+	}
+}
+
+// finish lets a healthy worker end by itself (end of input), so that a coverage-instrumented worker writes its counters;
+// it is killed only if it does not go away within three seconds.
+func (w *worker) finish() {
+	_ = w.in.Close()
+	done := make(chan struct{})
+	go func() { _, _ = w.cmd.Process.Wait(); close(done) }()
+	select {
+	case <-done:
+	case <-time.After(3 * time.Second):
+		_ = w.cmd.Process.Kill()
+		<-done
 	}
 }
 
